@@ -311,6 +311,11 @@ def run_history(entry, where, history):
     pm.name = "m"
     ps = pm.sections.add()
     ps.uuid = U(2).bytes
+    if where == "bare-module":
+        # a second module that has no sections (a stub of proxies / symbols)
+        pm = msg.modules.add()
+        pm.uuid = U(3).bytes
+        pm.name = "stub"
     cont = msg if where == "ir" else pm
     cont.aux_data[name].type_name = entry["type"]
     cont.aux_data[name].data = entry["bytes"]
@@ -329,7 +334,9 @@ def run_history(entry, where, history):
             out.append(("C14/load-raises:%s" % type(e).__name__,
                         "%s gen %d: %r" % (name, gen, e)))
             return out
-        c = ir if where == "ir" else ir.modules[0]
+        mu = U(3) if where == "bare-module" else U(1)
+        c = ir if where == "ir" else [m_ for m_ in ir.modules
+                                      if m_.uuid == mu][0]
         if name not in c.aux_data:
             out.append(("C14/table-lost", "%s gen %d" % (name, gen)))
             return out
@@ -432,7 +439,8 @@ def run_history(entry, where, history):
             return out
         m2 = IR_pb2.IR()
         m2.ParseFromString(data[8:])
-        c2 = m2 if where == "ir" else m2.modules[0]
+        c2 = m2 if where == "ir" else [m_ for m_ in m2.modules
+                                       if m_.uuid == mu.bytes][0]
         if name not in c2.aux_data:
             out.append(("C14/table-lost-by-save", "%s gen %d" % (name, gen)))
             return out
@@ -505,8 +513,10 @@ def run(ctx):
     max_gen = 3 if ctx.tier == "quick" else 4
     tasks = []
     for ei in range(len(cat)):
-        for where in ("ir", "module"):
+        for where in ("ir", "module", "bare-module"):
             for gens in range(1, max_gen + 1):
+                if where == "bare-module" and gens > 2:
+                    continue
                 tasks.append((ei, where, gens))
     ctx.rng.shuffle(tasks)
     n = 0
